@@ -50,6 +50,8 @@ class Tokenizer:
                 tok = self.consume_with_macro_params()
             elif self._call_macro:
                 tok = self.consume_macro_params()
+            elif self._proc_macro:
+                tok = self.consume_proc_macro_params()
             elif self._stack:
                 tok = self._stack.pop()
             else:
@@ -135,6 +137,37 @@ class Tokenizer:
             raise self._syntax_error("invalid syntax: empty macro argument", tok)
         if not string.strip():
             return TokenInfo(Token.WS, string, start, end, line)
+        return TokenInfo(Token.MACRO_PARAM, string, start, end, line)
+
+    def consume_proc_macro_params(self) -> TokenInfo:
+        """Raw text after ``cmd!``: everything up to the bracket that closes the subprocess (handed back unconsumed)."""
+        start: tuple[int, int] | None = None
+        end: tuple[int, int] | None = None
+        paren_level: list[str] = []
+        string = ""
+        line = ""
+        while True:
+            tok = next(self._tokengen)
+            closes = tok.type == Token.OP and tok.string in self._end_parens
+            if tok.type in (Token.ENDMARKER, Token.NEWLINE) or (closes and not paren_level):
+                # the end of the subprocess (or of the input): the parser takes it from here
+                self._stack.append(tok)
+                self._proc_macro = False
+                break
+            if tok.type == Token.OP and tok.string[-1] in "([{":
+                paren_level.append(tok.string[-1])
+            elif closes:
+                if paren_level[-1] != self._end_parens[tok.string]:
+                    raise self._syntax_error(f"Unmatched closing paren {tok.string} at {tok.start}", tok)
+                paren_level.pop()
+            end = tok.end
+            if start is None:
+                start = tok.start
+                line = tok.line
+            string += tok.string
+
+        if start is None or end is None:  # nothing after the ``!``
+            return self._stack.pop()
         return TokenInfo(Token.MACRO_PARAM, string, start, end, line)
 
     def consume_with_macro_params(self) -> TokenInfo:  # noqa: C901
